@@ -317,7 +317,8 @@ func (g *gen) rexp1(t *Type, ctx string) *RExp {
 				cs := g.locs(nil)
 				var ok []loc
 				for _, c := range cs {
-					if c.t.K == "slice" || c.t.K == "array" || c.t.K == "map" {
+					// not arrays: len/cap of an array-typed expression is a constant and the expression is not evaluated
+					if c.t.K == "slice" || c.t.K == "map" {
 						ok = append(ok, c)
 					}
 				}
@@ -558,7 +559,11 @@ func (g *gen) sop(inBody bool) *SOp {
 		o.IsDef, o.X, o.Ok = true, g.fresh(), g.fresh()
 		return o
 	default: // pass to a function that mutates its parameter, and take the result
+		// (constant index operands on the left: the callee may store through a pointer into an index variable,
+		// and Go does not specify whether that variable is read before or after the call)
+		g.constIdx = true
 		c := g.loc(nil)
+		g.constIdx = false
 		if c == nil || c.t.K == "int" || c.t.K == "bool" || c.t.K == "map" {
 			return nil
 		}
@@ -719,9 +724,18 @@ func (g *gen) status(p *Prog) string {
 		return "too-big"
 	}
 	f := common.Fields(ans)
-	gs := f["g"]
+	gs, ys := f["g"], f["y"]
 	if i := strings.IndexByte(gs, '~'); i >= 0 {
 		gs = gs[:i]
+	}
+	if i := strings.IndexByte(ys, '~'); i >= 0 {
+		ys = ys[:i]
+	}
+	if gs == "ok" && ys != "ok" {
+		// the model of the interpreter faults where the specification does not (after a listed divergence a
+		// pointer may be nil in the interpreter's world): the interpreter itself detects such faults only when
+		// the value is used (finding F04-10), so these candidates are not kept
+		return "model-faults"
 	}
 	if strings.HasPrefix(gs, "ill:") || gs == "" {
 		if len(g.ill) < 5 {
@@ -746,7 +760,7 @@ func (g *gen) bind(o *SOp, top bool) {
 func (g *gen) try(op Op, panicOK bool) (kept, panicked bool) {
 	cand := Prog{Ops: append(append([]Op{}, g.prog.Ops...), op)}
 	st := g.status(&cand)
-	if st == "ok" || (panicOK && st != "ill" && st != "driver-error" && st != "too-big") {
+	if st == "ok" || (panicOK && st != "ill" && st != "driver-error" && st != "too-big" && st != "model-faults") {
 		g.prog = cand
 		return true, st != "ok"
 	}
@@ -863,7 +877,9 @@ func generate(rng *rand.Rand, drv *wdDriver, allow map[string]bool) (Prog, *gen)
 					continue
 				}
 			}
-			kept, panicked := g.try(Op{S: o}, last && o.K != "ms" && g.chance(0.3))
+			// no deliberate panic in map stores and multi-assignments: the interpreter does not fault when a nil
+			// pointer is read but the value never stored (finding F04-10, source replay)
+			kept, panicked := g.try(Op{S: o}, last && o.K != "ms" && o.K != "mul" && o.K != "muld" && g.chance(0.3))
 			if kept && !panicked {
 				g.bind(o, true)
 			}
